@@ -19,7 +19,47 @@ def ackq_nontrivial(case, impl):
             return True
     return False
 
+def ring_nontrivial(case, impl):
+    # non-trivial: some consumer call returned bytes
+    return any(len(o.split()) > 2 and o.split()[0] == '0' for o in impl.split('|'))
+
+def sched_nontrivial(case, impl):
+    # a schedule is non-trivial when at least two threads took part
+    tids = set(g.split()[0] for g in case.split('|')[1:] if g.split())
+    return len(tids) >= 2
+
+RING_C14 = r'byte|obtained|consumer cursor|producer committed|consumer error|producer error'
+RING_C15 = r'LOST WAKE-UP|LEAKED LOCK|STUCK|did not|still locked|Close|within'
+
 PROPS = {
+    'C14': dict(
+        coq='Properties/C14.v',
+        drivers=[dict(name='ringdrv', oracle_filter=RING_C14, nontrivial=ring_nontrivial,
+                      env=dict(quick=dict(VERIF_RING_N='500', VERIF_RING_CONC='24'), thorough=dict(VERIF_RING_N='6000', VERIF_RING_CONC='200'))),
+                 dict(name='schedrv', oracle_filter=RING_C14, nontrivial=sched_nontrivial,
+                      env=dict(quick=dict(VERIF_SCHED_RUNS='800', VERIF_SCHED_PER_SCENARIO='40'),
+                               thorough=dict(VERIF_SCHED_RUNS='40000', VERIF_SCHED_PER_SCENARIO='2000')))],
+        rule='(1) sequential histories of producer/consumer calls on 16..64-byte rings (constant wrap-around) and real-size rings, bytes = '
+             'position-dependent stream, compared with Ring/Seq.v; (2) concurrent producer/consumer pairs on real goroutines (Write/Read, '
+             'reserve+commit/peek+commit, ReadFrom/WriteTo, writeMessage path) against the stream oracle; (3) forced schedules at the hook '
+             'points, traces replayed on Ring/Live.v. Non-trivial: a consumer call returned bytes / two threads took part.',
+        assumptions=['Ring/Seq.v, Ring/Conc.v are hand-written models of service/buffer.go; sync/atomic is taken as sequentially consistent; '
+                     'single producer / single consumer is a hypothesis of the property'],
+    ),
+    'C15': dict(
+        coq='Properties/C15.v',
+        drivers=[dict(name='schedrv', oracle_filter=RING_C15, nontrivial=sched_nontrivial,
+                      env=dict(quick=dict(VERIF_SCHED_RUNS='1500', VERIF_SCHED_PER_SCENARIO='80'),
+                               thorough=dict(VERIF_SCHED_RUNS='60000', VERIF_SCHED_PER_SCENARIO='3000'))),
+                 dict(name='ringdrv', oracle_filter=RING_C15, nontrivial=ring_nontrivial,
+                      env=dict(quick=dict(VERIF_RING_N='100', VERIF_RING_CONC='24'), thorough=dict(VERIF_RING_N='500', VERIF_RING_CONC='300')))],
+        rule='forced schedules (systematic over the first 14 decisions, then random) of concurrent calls incl. Close (once / repeatedly / from '
+             'several goroutines) on empty, partial, full and wrapped 16-byte rings at the lock / condition hook points; each trace replayed '
+             'event by event on Ring/Live.v; oracles: parked with true wake condition and nobody about to broadcast, mutex held between calls, '
+             'Close or a later call not returning; plus free-running concurrent pairs and Close scenarios under deadlines.',
+        assumptions=['Ring/Live.v is a hand-written model of the blocking protocol of service/buffer.go; semantics of sync.Mutex / sync.Cond '
+                     'as modelled; scheduler fairness assumed for progress'],
+    ),
     'C13': dict(
         coq='Properties/C13.v',
         drivers=[dict(name='ackqdrv', nontrivial=ackq_nontrivial,
